@@ -185,6 +185,40 @@ func (r *Run) fieldFuncKey(v ssa.Value) string {
 		}
 		return key
 	}
+	if fv, ok := u.X.(*ssa.FreeVar); ok {
+		// a captured local of the enclosing function that only ever holds one func-typed field's value
+		fn := fv.Parent()
+		if fn == nil || fn.Parent() == nil {
+			return ""
+		}
+		for _, ref := range *fv.Referrers() {
+			if s, ok := ref.(*ssa.Store); ok && s.Addr == fv {
+				return ""
+			}
+		}
+		mc := findMakeClosure(fn.Parent(), fn)
+		if mc == nil {
+			return ""
+		}
+		for i, f := range fn.FreeVars {
+			if f == fv && i < len(mc.Bindings) {
+				if a, ok := mc.Bindings[i].(*ssa.Alloc); ok {
+					key := ""
+					for _, ref := range *a.Referrers() {
+						if s, ok := ref.(*ssa.Store); ok && s.Addr == a {
+							k := r.fieldFuncKey(s.Val)
+							if k == "" || (key != "" && k != key) {
+								return ""
+							}
+							key = k
+						}
+					}
+					return key
+				}
+			}
+		}
+		return ""
+	}
 	fa, ok := u.X.(*ssa.FieldAddr)
 	if !ok {
 		return ""
@@ -580,6 +614,9 @@ func (r *Run) callWithSpec(fr *Frame, st *State, reach Term, sp *FuncSpec, sig *
 	}
 	if instr != nil {
 		rv := map[string]Val{}
+		for k, v := range env.vars {
+			rv["arg_"+k] = v // the call's arguments, by the callee's parameter names
+		}
 		switch len(rn) {
 		case 0:
 		case 1:
